@@ -8,8 +8,8 @@ open OdxVerif.Bits OdxVerif.OdxM
    ∀ ps v trig pdu, wf ps → canon ps v → encodeMessage ps v trig true = .ok (pdu, 0) →
      decodeMessage ps pdu true = .ok (complete ps v trig, pdu.length)
    Proved here: the instance where the top-level parameters are tier-2 parameters, multiplexers, STATIC-FIELDs and
-   DYNAMIC-LENGTH-FIELDs over tier-2 structures.  Still missing relative to the full statement: END-OF-PDU-FIELD,
-   DYNAMIC-ENDMARKER-FIELD, fields nested inside structures / field items / multiplexer cases, items with BYTE-SIZE,
+   DYNAMIC-LENGTH-FIELDs over tier-2 structures, optionally followed by an END-OF-PDU-FIELD as the last parameter.
+   Still missing relative to the full statement: DYNAMIC-ENDMARKER-FIELD, fields nested inside structures / field items / multiplexer cases, items with BYTE-SIZE,
    and everything `Props/C01.lean` lists (other parameter kinds, diag-coded types, compu methods).                    -/
 
 /-- **C01, field tier.** Requests/responses whose top-level parameters are
@@ -118,5 +118,69 @@ example : FItems.okAll exFItems := by
   · simp [FItem.ok, Item.ok, Tree.okAll, Tree.namesOk, Obj.ok, Obj.encOk, Obj.sizeOk, Obj.inRange]
 example : exFMux.encSel ∧ exFMux.decSel :=
   MuxLeaf.sel_of_case exFMux [.mk "hi" 8 15 none] [.mk "z" 0 1 none] 3 rfl (by decide) (by decide) (by decide)
+
+/-- **C01, field tier, END-OF-PDU-FIELD.** The parameters of `C01_roundtrip_fields` followed by one more VALUE
+    parameter typed by an **END-OF-PDU-FIELD** over a tier-2 structure (`EopLeaf`: any number of items, each with its own
+    value tree, each consuming at least one byte; MIN- and MAX-NUMBER-OF-ITEMS are not looked at by odxtools' codec). The
+    encoder accepts such a field only as the *last* parameter (`is_end_of_pdu`), and the decoder reads items until the
+    end of the message, so the statement needs `hend`: the position behind the last item is the end of the PDU — no
+    (explicitly positioned) parameter lies behind the field's items. `(FItems.pairEop xs e).enc {}` is the pure encoder
+    run from the empty message (its cursor is a function of the description and the number of items alone). Then: strict
+    `Request.encode` returns a PDU without overlap warning ⇒ strict `Request.decode` returns exactly the value tree.
+    Without `hend` the property fails in the model and in odxtools alike (the decoder turns the trailing bytes into
+    further items) — such a description contradicts the ODX meaning of "end of PDU". -/
+theorem C01_roundtrip_fields_eop (xs : List FItem) (e : EopLeaf) (hneed : FItems.need xs + e.need + 3 ≤ modelFuel)
+    (hok : FItems.okAll xs) (heok : e.ok) (hn : FItems.namesOk xs) (hne : ∀ x ∈ xs, x.name ≠ e.name)
+    (trig : Option Bytes) (pdu : Bytes)
+    (hend : ((FItems.pairEop xs e).enc {}).cursorByte = pdu.length)
+    (henc : encodeMessage none (FItems.toParamsEop xs e) (.dict (FItems.pairEop xs e).val) trig true = .ok (pdu, 0)) :
+    ∃ cursor, decodeMessage none (FItems.toParamsEop xs e) pdu true = .ok (.dict (FItems.pairEop xs e).val, cursor) :=
+  fitems_eop_roundtrip_msg xs e hneed hok heok hn hne trig pdu hend henc
+
+/-! non-vacuity: [sid; DYNAMIC-LENGTH-FIELD df: count byte, 2 items {x: 8 bit}; END-OF-PDU-FIELD rec: 2 items
+    {id: 8 bit; v: 16 bit}] -/
+def exEItem (i v : Int) : List Tree :=
+  [.int ⟨"id", none, none, none, true, 8, .uint32⟩ (.int i), .int ⟨"v", none, none, none, true, 16, .int32⟩ (.int v)]
+def exEDynItem (x : Int) : List Tree := [.int ⟨"x", none, none, none, true, 8, .uint32⟩ (.int x)]
+def exEDyn : DynLeaf :=
+  { name := "df", bytePos := none, offset := 1, cntBp := 0, cnt := ⟨"", none, none, none, true, 8, .uint32⟩,
+    shape := exEDynItem 0, items := [exEDynItem 10, exEDynItem 11] }
+def exEop : EopLeaf :=
+  { name := "rec", bytePos := none, minItems := none, maxItems := some 5, shape := exEItem 0 0,
+    items := [exEItem 1 (-2), exEItem 2 300] }
+def exEItems : List FItem :=
+  [.item (.tree (.const ⟨"sid", none, none, none, true, 8, .uint32⟩ (.int 0x31))), .dfield exEDyn]
+
+example : (FItems.pairEop exEItems exEop).val =
+    [("sid", .atom (.int 0x31)), ("df", .list [.dict [("x", .atom (.int 10))], .dict [("x", .atom (.int 11))]]),
+     ("rec", .list [.dict [("id", .atom (.int 1)), ("v", .atom (.int (-2)))], .dict [("id", .atom (.int 2)), ("v", .atom (.int 300))]])] := rfl
+example : (encodeMessage none (FItems.toParamsEop exEItems exEop) (.dict (FItems.pairEop exEItems exEop).val) none true).toOption
+    = some ([0x31, 0x02, 0x0A, 0x0B, 0x01, 0xFF, 0xFE, 0x02, 0x01, 0x2C], 0) := by decide +kernel
+/-- `hend`: the pure encoder's cursor ends at byte 10 = the length of the PDU -/
+example : ((FItems.pairEop exEItems exEop).enc {}).cursorByte = 10 := by decide +kernel
+example : ((decodeMessage none (FItems.toParamsEop exEItems exEop) [0x31, 0x02, 0x0A, 0x0B, 0x01, 0xFF, 0xFE, 0x02, 0x01, 0x2C] true).toOption.map
+    fun r => (pvalEq r.1 (.dict (FItems.pairEop exEItems exEop).val), r.2)) = some (true, 10) := by decide +kernel
+example : FItems.need exEItems + exEop.need + 3 ≤ modelFuel := by decide
+example : exEop.ok := by
+  intro k hk
+  simp only [exEop, List.mem_cons, List.mem_nil_iff, or_false] at hk
+  rcases hk with rfl | rfl <;>
+  · refine ⟨⟨rfl, ?_, ?_⟩, by decide⟩
+    · simp [exEItem, Trees.okAll, Tree.okAll, Obj.ok, Obj.encOk, Obj.sizeOk, Obj.inRange, int32Known, int32InRange]
+    · simp [exEItem, Trees.namesOk, Tree.namesOk, Tree.name]
+example : FItems.okAll exEItems := by
+  refine ⟨?_, ?_, trivial⟩
+  · simp [FItem.ok, Item.ok, Tree.okAll, Tree.namesOk, Obj.ok, Obj.encOk, Obj.sizeOk, Obj.inRange]
+  · refine ⟨?_, ?_, by decide, ?_⟩
+    · simp [exEDyn, DynLeaf.cntObj, Obj.ok, Obj.encOk, Obj.sizeOk]
+    · simp [exEDyn, DynLeaf.cntObj, Obj.inRange]
+    · intro k hk
+      simp only [exEDyn, List.mem_cons, List.mem_nil_iff, or_false] at hk
+      rcases hk with rfl | rfl <;>
+      · refine ⟨⟨rfl, ?_, ?_⟩, by decide⟩
+        · simp [exEDynItem, Trees.okAll, Tree.okAll, Obj.ok, Obj.encOk, Obj.sizeOk, Obj.inRange]
+        · simp [exEDynItem, Trees.namesOk, Tree.namesOk, Tree.name]
+example : FItems.namesOk exEItems ∧ ∀ x ∈ exEItems, x.name ≠ exEop.name := by
+  simp [FItems.namesOk, exEItems, FItem.name, Item.name, Tree.name, exEDyn, exEop]
 
 end OdxVerif.Codec
